@@ -95,6 +95,9 @@ fn words_entries(s: &State, depth: usize, d: &StateDigest, acc: &mut Vec<(Vec<u6
     if !d.buckets.is_empty() {
         let mut c = d.buckets[0].clone();
         for n in &d.buckets[1..] {
+            if acc.len() > 64 {
+                break; // a sample (see op_words)
+            }
             let c2 = MerkleNode::combine(&c, n);
             if !(c.count == 0 && n.count == 0) {
                 acc.push((vec![c.hash, n.hash], c2.hash));
@@ -120,7 +123,9 @@ fn op_words(out: &mut Out, entries: &[(Vec<u64>, u64)]) {
         let mut e = e.borrow_mut();
         entries.iter().filter(|(w, _)| e.insert(w.clone())).collect()
     });
-    let entries: Vec<(Vec<u64>, u64)> = fresh.into_iter().cloned().collect();
+    // the model hashes itself (SipHash-1-3 over the same words); the D lines compare every bucket
+    // node and the root, so a sample of the word streams is enough here
+    let entries: Vec<(Vec<u64>, u64)> = fresh.into_iter().take(24).cloned().collect();
     let entries = &entries[..];
     let mut seen = BTreeSet::new();
     let mut l = String::new();
@@ -135,7 +140,22 @@ fn op_words(out: &mut Out, entries: &[(Vec<u64>, u64)]) {
             l.push_str(&format!(" {}", h));
         }
     }
-    out.op(format!("W {}{}", m, l), "ok".into());
+    out.op(format!("W {}{}", m, l), "ok conflicts=0".into());
+}
+
+/// `SIP` lines: the real `DefaultHasher` on raw byte strings of every length 0..=40 (block
+/// boundaries of SipHash at 7/8/9, 15/16/17, …) and on random longer ones — the model's `sip13`
+/// must be the same function
+fn op_sip(out: &mut Out, rng: &mut Rng, n: usize) {
+    use std::hash::Hasher;
+    for i in 0..n {
+        let len = if i <= 40 { i } else { rng.range(41, 300) as usize };
+        let bytes: Vec<u8> = (0..len).map(|_| match rng.below(4) { 0 => 0, 1 => 255, _ => rng.below(256) as u8 }).collect();
+        let mut h = std::collections::hash_map::DefaultHasher::new();
+        h.write(&bytes);
+        out.op(format!("SIP {}", hex(&bytes)), h.finish().to_string());
+        out.count("sip:raw-byte-strings");
+    }
 }
 
 fn digest_of(s: &State, depth: usize) -> StateDigest {
@@ -693,6 +713,7 @@ fn rv_lww(bytes: &[u8], t: u64, r: u64) -> ReplicatedValue {
 
 /// fixed witnesses, run first on every run (known findings must reproduce)
 fn corpus(out: &mut Out, rng: &mut Rng, thorough: bool) {
+    op_sip(out, rng, 60);
     // (1) DESIGN.md §6.1: the same 40 entries inserted in two orders, depth 2
     let content: Vec<(String, ReplicatedValue)> = (0..40).map(|i| (format!("key{}", i), rv_lww(format!("v{}", i).as_bytes(), i as u64 + 1, 1))).collect();
     let p = Pair { a: build(&content, rng), b: build(&content, rng), depth: 2 };
